@@ -59,7 +59,24 @@ func Closes[T any](ch *Chan[T]) int { return ch.c.closes }
 // IsClosed reports the channel state (harness use only).
 func IsClosed[T any](ch *Chan[T]) bool { return ch.c.closed }
 
+// Len is len(c). It observes state that other tasks change, so it is a
+// visible operation (a scheduling point), unlike Cap.
 func Len[T any](ch *Chan[T]) int {
+	if s := current; s != nil && s.cur != nil {
+		t := s.cur
+		t.op = opYield
+		s.visible(t)
+		t.op = opNone
+		s.log(t, "len", coreOf(ch), "")
+	}
+	if ch == nil {
+		return 0
+	}
+	return len(ch.c.buf)
+}
+
+// BufLen is for harness bookkeeping (invariants): no scheduling point.
+func BufLen[T any](ch *Chan[T]) int {
 	if ch == nil {
 		return 0
 	}
